@@ -187,6 +187,8 @@ PROPS["C15"] = dict(
         "c15_id_two_const_labels_order_independent": dict(cap=3600, tier="thorough"),
         "c15_dim_hash_variable_label_sets": dict(cap=2400),
         "c15_dim_hash_const_vs_variable": dict(cap=2400),
+        "c15_dim_hash_same_const_names_different_values": dict(cap=2400),
+        "c15_dim_hash_const_present_vs_absent": dict(cap=2400),
     },
     functions=["Desc::new (id and dim_hash computation, const label pair sorting)", "desc::is_valid_metric_name", "desc::is_valid_label_name"],
     bounds="metric name 1..=2 bytes and one const-label value 0..=2 bytes (ASCII, symbolic); two const labels with 1-byte symbolic values in both insertion orders and every map iteration order; help 1 symbolic lowercase letter; variable-label lists from {[], [x], [y], [x,y], [y,x]}; hashed streams <= 8 bytes; unwind 6",
